@@ -83,6 +83,11 @@ def build_and_audit(prop: str, tier: str):
     info = {"obligations": 0, "discharged": 0, "broken": [], "notes": [], "theorems": {}, "translators": {}}
     with common.BuildLock():
         info["translators"] = common.run_translators()
+        for k, v in info["translators"].items():
+            if not (v.startswith("ok") or v.startswith("regenerated")):
+                # never a verdict, but never silent either: the tie of this function is checked against its LAST GOOD translation,
+                # not against the current source; the correspondence tie decides for it
+                print(f"note: translator {k}: {v}", file=sys.stderr)
         ok, log = common.lake_build(["CRModel", "Driver", "crdriver"])
         if not ok:
             raise InfraError("model/driver build failed:\n" + log[-3000:])
@@ -147,6 +152,8 @@ def write_evidence(prop, tier, seed, build, m, wall, violations, known_hit, mod)
         "trusted_base": common.TRUSTED_BASE + list(getattr(mod, "TRUSTED", [])),
         "theorems": build["theorems"],
         "translators": build.get("translators", {}),
+        "translators_lost": sorted(k for k, v in build.get("translators", {}).items()
+                                   if not (v.startswith("ok") or v.startswith("regenerated"))),
         "evaluations": m["evaluations"],
         "distinct_nontrivial": len(m["distinct"]),
         "rule": getattr(mod, "RULE", ""),
